@@ -48,6 +48,7 @@ type recCase struct {
 	MaxSize int64  `json:"maxSize"`
 	Steps   []step `json:"steps"`
 	Torn    bool   `json:"torn"`
+	Warm    int    `json:"warm"` // number of segment roll-overs performed (and consumed) before the history starts
 	// bytes mode
 	File     []int   `json:"file"`
 	Appended [][]int `json:"appended"`
@@ -71,14 +72,20 @@ func body(n, l int) []byte {
 }
 
 func openQ(dir string, maxSeg, maxSize int64) (*durablequeue.Queue, error) {
-	q, err := durablequeue.NewQueue(dir, maxSize, maxSeg, &durablequeue.SharedCount{}, 8, func([]byte) error { return nil })
+	q, _, err := openQC(dir, maxSeg, maxSize)
+	return q, err
+}
+
+func openQC(dir string, maxSeg, maxSize int64) (*durablequeue.Queue, *durablequeue.SharedCount, error) {
+	sc := &durablequeue.SharedCount{}
+	q, err := durablequeue.NewQueue(dir, maxSize, maxSeg, sc, 8, func([]byte) error { return nil })
 	if err != nil {
-		return nil, err
+		return nil, nil, err
 	}
 	if err := q.Open(); err != nil {
-		return nil, err
+		return nil, nil, err
 	}
-	return q, nil
+	return q, sc, nil
 }
 
 func copyDir(src, dst string) error {
@@ -123,6 +130,30 @@ func drain(dir string, maxSeg, maxSize int64) (out [][]byte, openErr error, read
 		}
 	}
 	return out, nil, fmt.Errorf("drain did not terminate")
+}
+
+// recoverAppendDrain opens a queue on a crash image, appends one fresh entry, closes, reopens and drains: the image must
+// still hand out what it handed out before, followed by the fresh entry (the queue stays usable after recovery).
+func recoverAppendDrain(dir string, maxSeg, maxSize int64, fresh []byte) (out [][]byte, err error) {
+	q, err := openQ(dir, maxSeg, 1<<30)
+	if err != nil {
+		return nil, fmt.Errorf("open: %w", err)
+	}
+	if err := q.Append(fresh); err != nil {
+		q.Close()
+		return nil, fmt.Errorf("append after recovery: %w", err)
+	}
+	if err := q.Close(); err != nil {
+		return nil, err
+	}
+	out, oerr, rerr := drain(dir, maxSeg, 1<<30)
+	if oerr != nil {
+		return out, fmt.Errorf("reopen after append: %w", oerr)
+	}
+	if rerr != nil {
+		return out, fmt.Errorf("read after append: %w", rerr)
+	}
+	return out, nil
 }
 
 func ids(bs [][]byte) []int {
@@ -298,7 +329,7 @@ func runRecord(c *recCase, env *rt.Env) rt.Result {
 	os.MkdirAll(dir, 0o755)
 	defer os.RemoveAll(dir)
 	defer os.RemoveAll(img)
-	q, err := openQ(dir, c.MaxSeg, c.MaxSize)
+	q, sc, err := openQC(dir, c.MaxSeg, c.MaxSize)
 	if err != nil {
 		return rt.Infra("open: " + err.Error())
 	}
@@ -307,6 +338,21 @@ func runRecord(c *recCase, env *rt.Env) rt.Result {
 			q.Close()
 		}
 	}()
+	// warm-up: roll and consume segments so that the history runs on segment ids around c.Warm (ids are not part of
+	// the abstract state; 8..11 and 98..101 straddle a digit boundary of the file names)
+	for w := 0; w < c.Warm; w++ {
+		big := make([]byte, c.MaxSeg+1)
+		if err := q.Append(big); err != nil {
+			return rt.Infra("warm-up append: " + err.Error())
+		}
+		if err := q.Advance(); err != nil {
+			return rt.Infra("warm-up advance: " + err.Error())
+		}
+	}
+	if c.Warm > 0 {
+		// the shared byte counter is owned by the caller of NewQueue: start the history from 0 as the spec does
+		sc.Add(-sc.Value())
+	}
 	var acked [][]byte
 	nadv := 0
 	evals := 0
@@ -494,6 +540,24 @@ func runRecord(c *recCase, env *rt.Env) rt.Result {
 					r := rt.Fail(i, fmt.Sprintf("torn %s (k=%d of file %s): read error after recovery: %v", s.A, ti.k, ti.name, rerr), rerr.Error(), nil, pats...)
 					r.Extra = map[string]interface{}{"k": ti.k, "file": ti.name}
 					return r
+				}
+				// the recovered queue must stay usable: a fresh append is delivered after what recovery handed out
+				if oerr == nil && rerr == nil {
+					if err := writeImage(img, ti.files); err != nil {
+						return rt.Infra(err.Error())
+					}
+					fresh := []byte{0xEE, 0xEE, 0xEE, 0xEE, 0xEE}
+					del2, err := recoverAppendDrain(img, c.MaxSeg, c.MaxSize, fresh)
+					want := append(append([][]byte{}, del...), fresh)
+					same := err == nil && len(del2) == len(want)
+					for x := 0; same && x < len(want); x++ {
+						same = bytes.Equal(del2[x], want[x])
+					}
+					if !same {
+						r := rt.Fail(i, fmt.Sprintf("torn %s (k=%d of file %s): after recovery, Append + reopen delivers %v (err=%v), want %v", s.A, ti.k, ti.name, del2, err, want), fmt.Sprint(del2), fmt.Sprint(want), pats...)
+						r.Extra = map[string]interface{}{"k": ti.k, "file": ti.name}
+						return r
+					}
 				}
 				// allowed: re-delivery from any point <= nadv(after), must include everything acked-before and not advanced (nadvAfter)
 				if !isRun(del, all, nadv, len(ackedBefore)) {
